@@ -135,7 +135,7 @@ class Check:
     # ---- verdicts --------------------------------------------------------------------------
     def discharge(self, timeout_ms=None, parallel=True):
         pending = [o for o in self.obligs if o.status is None and not isinstance(o, _Stub)]
-        smt.discharge(pending, timeout_ms or self.solver_timeout_ms, parallel=parallel)
+        smt.discharge(pending, timeout_ms or self.solver_timeout_ms, parallel=parallel, portfolio=getattr(self, "portfolio", None) or smt.PORTFOLIO)
         if os.environ.get("SYMX_VERBOSE"):
             for ob in pending:
                 if ob.secs > 3:
@@ -337,6 +337,7 @@ def run_parallel(ck, tasks, jobs=None):
             smt.STATS["by_solver"] = {}
             c = Check(ck.pid, ck.tier, ck.seed, ck.replays)
             c.solver_timeout_ms = ck.solver_timeout_ms
+            c.portfolio = getattr(ck, "portfolio", None)
             c._tag = "t%d" % idx
             try:
                 fn(c)
